@@ -39,7 +39,7 @@ def corr_jobs(tier, rng):
     # the level-loop model that C12_skip_mask / C12_prefix are about, against DTCWTForward with every skip mask (J <= 2) and the end masks (J = 3)
     import corr_dtcwt as cd
     sizes = [(8, 8), (6, 10), (7, 9)] if tier == 'quick' else [(8, 8), (6, 10), (7, 9), (12, 4), (16, 20)]
-    ms = [c for c in cd.cases_modules(rng, sizes, Js=(1, 2, 3), masks='all', absent=False) if c.entry == 39]
+    ms = [c for c in cd.cases_modules(rng, sizes, Js=(1, 2, 3), masks='all', absent=False, modes=(cd.MODE_SYM, cd.MODE_ZERO)) if c.entry == 39]
     yield dict(name='module_model_vs_impl', module='Run.RunDtcwt', runner='run_dtcwt', cases=ms, against='impl')
 
 
@@ -59,6 +59,8 @@ def oracle_cases(tier, rng):
         for mask in itertools.product([False, True], repeat=J):
             for hw in sizes[:2]:
                 yield dict(kind='skip', J=J, mask=list(mask), H=hw[0], W=hw[1], seed=int(rng.integers(1 << 30)))
+                if any(mask):      # the options must not interact with the padding mode either
+                    yield dict(kind='skip', J=J, mask=list(mask), H=hw[0], W=hw[1], mode='zero', seed=int(rng.integers(1 << 30)))
                 yield dict(kind='scale', J=J, mask=list(mask), H=hw[0], W=hw[1], seed=int(rng.integers(1 << 30)))
     for J in (2, 3, 4):
         for hw in sizes:
@@ -68,7 +70,7 @@ def oracle_cases(tier, rng):
 def strat_key(cfg):
     if cfg['kind'] == 'layout':
         return 'layout/o%d/ri%d' % (cfg['o'], cfg['ri'])
-    return '%s/J%d/%s' % (cfg['kind'], cfg['J'], cfg.get('mask'))
+    return '%s/J%d/%s/%s' % (cfg['kind'], cfg['J'], cfg.get('mask'), cfg.get('mode', ''))
 
 
 def is_placeholder(t):
@@ -107,8 +109,9 @@ def oracle_run(cfg):
             return dict(detail='inverse differs from default-layout inverse: ' + msg)
         return None
     if k == 'skip':
-        yl0, yh0 = DTCWTForward(J=J)(X)
-        yl, yh = DTCWTForward(J=J, skip_hps=cfg['mask'])(X)
+        md = cfg.get('mode', 'symmetric')
+        yl0, yh0 = DTCWTForward(J=J, mode=md)(X)
+        yl, yh = DTCWTForward(J=J, skip_hps=cfg['mask'], mode=md)(X)
         if not torch.equal(yl, yl0):
             return dict(detail='lowpass changed by skip_hps')
         for j in range(J):
